@@ -90,9 +90,20 @@ def _run_shard(args):
             mod.run_shard(spec, ctx)
         res = ctx.result()
         res["error"] = None
-    except BaseException:
+    except BaseException as e:
         res = ctx.result()
-        res["error"] = traceback.format_exc()
+        where = core.tree_frame(e) if isinstance(e, Exception) and not isinstance(e, core.HarnessError) else None
+        if where is not None:
+            # an exception raised inside the tree under test that no oracle expected: the library failed on an input the
+            # check holds to be valid.  Reported as a violation of its own (the traceback is the replay document); the
+            # shard stops here, so the run is also inconclusive beyond this point.
+            key = "escaped_exception:%s@%s" % (type(e).__name__, where)
+            if key not in known:
+                res["violations"].setdefault(key, {"case": {"escaped_exception": True, "shard": spec.get("shard", 0), "traceback": traceback.format_exc()[-3000:]}, "msg": "the library raised %s: %s (not expected by any oracle; shard %s stopped there)" % (type(e).__name__, str(e)[:300], spec.get("shard", 0))})
+            res["budget_exhausted"] = True
+            res["error"] = None
+        else:
+            res["error"] = traceback.format_exc()
     finally:
         if cov is not None:
             cov.stop()
@@ -201,6 +212,11 @@ def main():
             doc = json.load(open(a.replay))
             case = core.unjson(doc["case"])
             ctx = core.Ctx(pid, "quick", seed)
+            if isinstance(case, dict) and case.get("escaped_exception"):
+                # the document of an exception that escaped a sweep is its traceback: run the quick tier again
+                print(case.get("traceback", ""))
+                print("this replay file records an exception that escaped a sweep; re-run the check itself to reproduce it")
+                sys.exit(1)
             msgs = mod.replay(case, ctx)
         except BaseException:
             traceback.print_exc()
